@@ -76,6 +76,8 @@ def handler_opaque(body, args):
         return "opaque"
     if body.path.startswith(MEMC + "::"):
         return "opaque"
+    if body.name in ("into_quiet_get", "into_quiet_mutation"):
+        return "opaque"
     return "inline"
 
 
